@@ -5,8 +5,8 @@ cd "$(dirname "$(readlink -f "$0")")"
 names=$(ls -d seeded/*/ | xargs -n1 basename | sort)
 out=$(mktemp -d)
 lane=0
-for n in $names; do echo $n >> $out/lane$((lane % 4)); lane=$((lane+1)); done
-for l in 0 1 2 3; do
+for n in $names; do echo $n >> $out/lane$((lane % ${LANES:-4})); lane=$((lane+1)); done
+for l in $(seq 0 $((${LANES:-4}-1))); do
   ( for n in $(cat $out/lane$l); do
       p=${n%%-*}
       /venv/bin/python tools_seeded.py verify $n > $out/v_$n.txt 2>&1
